@@ -146,6 +146,9 @@ pub enum Act {
     AckN { c: u8, n: u16 },
     /// complete the n oldest received PUBRELs in one batch
     CompN { c: u8, n: u16 },
+    /// like `AckN`, followed in the same batch by a request of the same client that asks for a
+    /// reply: 0 PINGREQ, 1 SUBSCRIBE (last filter), 2 QoS 1 PUBLISH (topic 0)
+    AckNThen { c: u8, n: u16, then: u8 },
     /// DISCONNECT packet, then the client closes the socket: the link task sees the end of
     /// the stream before it notices that the router dropped it, so its Disconnect event
     /// (and the PublishWill) arrive late (`Late`)
